@@ -115,6 +115,21 @@ def _jsonable(x):
     return str(x)[:200]
 
 
+def _zshort(c, n=160):
+    """bounded rendering of a (possibly huge) z3 term."""
+    import z3
+    from z3 import z3printer
+    f = z3printer._Formatter
+    old = (f.max_depth, f.max_args, f.max_visited)
+    try:
+        z3.set_option(max_depth=6, max_args=8, max_visited=300)
+        return str(c)[:n]
+    except Exception:
+        return "<term>"
+    finally:
+        z3.set_option(max_depth=old[0], max_args=old[1], max_visited=old[2])
+
+
 def explore(h, max_paths=2000, time_budget=600.0, witness_per_harness=3, obl_timeout=60000, allowed_exc=()):
     """Symbolically explore all feasible paths of harness h. Returns result dict."""
     t_start = time.time()
@@ -128,6 +143,17 @@ def explore(h, max_paths=2000, time_budget=600.0, witness_per_harness=3, obl_tim
         "engine_errors": [], "budget": None, "samples": [], "stubs": [], "labels": [],
     }
     pending = [[]]
+    part = h.params.get("part") if isinstance(h.params, dict) else None
+    if part:
+        # "i/n" (n a power of two): explore only the sub-tree whose first log2(n) recorded decisions spell i in
+        # binary; the n instances together cover every path (a forced prefix that is infeasible aborts at once)
+        i_, n_ = (int(x) for x in str(part).split("/"))
+        k_ = n_.bit_length() - 1
+        assert 1 << k_ == n_ and 0 <= i_ < n_
+        pending = [[bool((i_ >> b) & 1) for b in range(k_)]]
+        forced_root = k_
+    else:
+        forced_root = 0
     seen_traces = set()
     labels = set()
     stubs = set()
@@ -140,6 +166,8 @@ def explore(h, max_paths=2000, time_budget=600.0, witness_per_harness=3, obl_tim
             break
         prefix = pending.pop()
         ctx = S.Ctx(prefix=prefix, pending=pending)
+        if forced_root and len(prefix) == forced_root:
+            ctx.forced = forced_root     # the root of this sub-tree was not produced by the solver: check it is feasible
         S.set_ctx(ctx)
         rec = PathRecord(ctx, obl_timeout=obl_timeout)
         env = Env("sym", ctx=ctx, record=rec)
@@ -239,7 +267,7 @@ def explore(h, max_paths=2000, time_budget=600.0, witness_per_harness=3, obl_tim
                 if out["status"] == "ok":
                     res["witness_validated"] += 1
                     if len(res["samples"]) < 3:
-                        res["samples"].append({"path_decisions": _tr(ctx.trace), "path_condition": [str(c)[:160] for c in ctx.conds[-4:]], "witness_inputs": _round(w), "claims_checked": out["nclaims"], "obligation_labels": sorted(set(rec.labels))[:8]})
+                        res["samples"].append({"path_decisions": _tr(ctx.trace), "path_condition": [_zshort(c) for c in ctx.conds[-4:]], "witness_inputs": _round(w), "claims_checked": out["nclaims"], "obligation_labels": sorted(set(rec.labels))[:8]})
                 elif out["status"] == "precondition":
                     res["witness_skipped"] += 1
                 elif out["status"] == "harness_error":
